@@ -1,4 +1,10 @@
-"""C54 — sticky cookies are only sent to hosts and paths they belong to (exploration draft)."""
+"""C54 — sticky cookies are only sent to hosts and paths they belong to.
+
+Specification written from RFC 6265:
+  §5.2.3  cookie-domain = Domain attribute value without ONE leading ".", lower-cased
+  §5.1.3  string s domain-matches domain d  <=>  s == d  or  (s ends with "." ++ d  and  s is a host name, not an IP address)
+  §5.1.4  request-path r path-matches cookie-path c  <=>  r == c  or  (c is a prefix of r  and  (c ends with "/"  or  r[len(c)] == "/"))
+"""
 from pyvc.api import *
 from props.prelude import *
 
@@ -7,9 +13,154 @@ M = "mitmproxy.addons.stickycookie"
 HTTP_ROOT = ["/root/.pyenv/versions/3.12.1/lib/python3.12/http"]
 
 
-@scenario("domain_match", functions=[M + ":domain_match"], extra_inline_roots=HTTP_ROOT)
-def s_dm(vc):
-    a = vc.sym_str("a")
-    b = vc.sym_str("b")
+# ---------------------------------------------------------------------------------------------
+# regular languages used by the specification, usable in both modes: (python regex, z3 regex builder)
+
+def _z3():
+    import z3
+    return z3
+
+
+def rx(vc, s, name):
+    """s in LANG[name]"""
+    pat, build = LANG[name]
+    if vc.mode == "native" or not is_sym(s):
+        import re
+        return re.fullmatch(pat, s, re.S) is not None
+    z3 = _z3()
+    return SBool(z3.InRe(s.t, build(z3)))
+
+
+def _d(z3):
+    return z3.Range("0", "9")
+
+
+def _lit(z3, c):
+    return z3.Re(z3.StringVal(c))
+
+
+def _ip4(z3):
+    return z3.Concat(z3.Plus(_d(z3)), _lit(z3, "."), z3.Plus(_d(z3)), _lit(z3, "."), z3.Plus(_d(z3)), _lit(z3, "."), z3.Plus(_d(z3)))
+
+
+def _ip6(z3):
+    h = z3.Union(_d(z3), z3.Range("a", "f"), _lit(z3, ":"))
+    return z3.Concat(z3.Star(h), _lit(z3, ":"), z3.Star(h), z3.Option(_ip4(z3)))
+
+
+def _ldh(z3):
+    return z3.Union(_d(z3), z3.Range("a", "z"), _lit(z3, "-"))
+
+
+def _hostname(z3):
+    # dot-separated non-empty LDH labels whose last label is not all-numeric (a DNS host name, not an address)
+    label = z3.Plus(_ldh(z3))
+    last = z3.Concat(z3.Star(_ldh(z3)), z3.Union(z3.Range("a", "z"), _lit(z3, "-")), z3.Star(_ldh(z3)))
+    return z3.Concat(z3.Star(z3.Concat(label, _lit(z3, "."))), last)
+
+
+LANG = {
+    # textual IPv4 address (over-approximation: any four dot-separated digit groups)
+    "ip4": (r"\d+\.\d+\.\d+\.\d+", _ip4),
+    # textual IPv6 address (over-approximation: hex digits and colons with at least one colon, optional dotted-quad tail)
+    "ip6": (r"[0-9a-f:]*:[0-9a-f:]*(\d+\.\d+\.\d+\.\d+)?", _ip6),
+    "hostname": (r"([0-9a-z-]+\.)*[0-9a-z-]*[a-z-][0-9a-z-]*", _hostname),
+}
+# re.ASCII for \d in the python patterns
+LANG = {k: (p.replace(r"\d", "[0-9]"), b) for k, (p, b) in LANG.items()}
+
+
+def lower_(vc, s):
+    """str.lower(): in proof mode the uninterpreted function the engine uses for it"""
+    if vc.mode == "native" or not is_sym(s):
+        return s.lower()
+    from pyvc import lib
+    z3 = _z3()
+    return SStr(lib.uf("lower", z3.StringSort(), z3.StringSort())(s.t))
+
+
+def cookie_domain(b):
+    """RFC 6265 §5.2.3: drop one leading dot"""
+    return If(startswith(b, "."), b[1:], b)
+
+
+def is_ip(vc, a):
+    return Or(rx(vc, a, "ip4"), rx(vc, a, "ip6"))
+
+
+def spec_domain_match(vc, a, d):
+    """RFC 6265 §5.1.3 on canonicalised (lower-case) strings: host string a, cookie-domain d"""
+    return Or(a == d, And(endswith(a, "." + d), Not(is_ip(vc, a))))
+
+
+DM_OPTS = dict(extra_inline_roots=HTTP_ROOT, exact_search=True, strip_facts=True, rfind_uf=True)
+DM_FUNCS = [M + ":domain_match", "http.cookiejar:domain_match", "http.cookiejar:is_HDN"]
+
+
+def K_inner(a, d):
+    """KF-C54-1: the cookie domain occurs inside the host name but not at its end (rfind instead of a suffix test)"""
+    return And(contains(a, "." + d), Not(endswith(a, "." + d)), a != d)
+
+
+def _call_dm(vc, a, b):
     out = vc.call(M + ":domain_match", a, b)
     vc.ensure("no_exception", out.ok)
+    if not out.ok:
+        return None
+    r = out.result
+    vc.ensure("result_is_bool", isinstance(r, (bool, SBool)))
+    if not isinstance(r, (bool, SBool)):
+        return None
+    return r
+
+
+@scenario("domain_match.wellformed", functions=DM_FUNCS, **DM_OPTS)
+def s_dm(vc):
+    """Domain attribute = optional leading dot ++ d, d non-empty without leading/trailing dot; canonical (lower-case) inputs
+    (the general case is reduced to this one by scenario domain_match.case_insensitive)."""
+    a = vc.sym_str("a")
+    d = vc.sym_str("d")
+    lead = vc.case("leading_dot", ["", "."])
+    b = lead + d
+    vc.assume(lower_(vc, a) == a)
+    vc.assume(lower_(vc, b) == b)
+    vc.assume(len_(d) > 0)     # RFC 6265 §5.2.3: empty Domain attribute value => behaviour undefined / attribute ignored
+    vc.assume(And(Not(startswith(d, ".")), Not(endswith(d, "."))))
+    r = _call_dm(vc, a, b)
+    if r is None:
+        return
+    vc.ensure_kf("sound.suffix_or_equal", Implies(r, Or(a == d, endswith(a, "." + d))), "KF-C54-1", K_inner(a, d))
+    vc.ensure("sound.not_an_ipv4_address", Implies(And(r, a != d), Not(rx(vc, a, "ip4"))))
+    vc.ensure("sound.not_an_ipv6_address", Implies(And(r, a != d), Not(rx(vc, a, "ip6"))))
+    # non-vacuity (not demanded by the statement): ordinary host names match themselves and their dotted parent domains
+    host_like = And(rx(vc, a, "hostname"), rx(vc, d, "hostname"))
+    if lead == ".":
+        vc.ensure("complete.dotted_domain", Implies(And(host_like, Or(a == d, endswith(a, "." + d))), r))
+    else:
+        vc.ensure("complete.equal_host", Implies(a == d, r))
+
+
+@scenario("domain_match.malformed_domain", functions=DM_FUNCS, **DM_OPTS)
+def s_dm_mal(vc):
+    """Domain attribute values with further leading dots or trailing dots (not a valid domain-value, RFC 6265 §4.1.1)."""
+    a = vc.sym_str("a")
+    b = vc.sym_str("b")
+    vc.assume(lower_(vc, a) == a)
+    vc.assume(lower_(vc, b) == b)
+    d = cookie_domain(b)
+    vc.assume(len_(d) > 0)
+    vc.assume(Or(startswith(d, "."), endswith(d, ".")))
+    r = _call_dm(vc, a, b)
+    if r is None:
+        return
+    # KF-C54-3: b.strip(".") removes more than the one leading dot (further leading dots, trailing dots)
+    K3 = And(a == strip_dots(vc, b), a != d)
+    vc.ensure_kf("sound.rfc_domain_match", Implies(And(r, Not(K_inner(a, d))), spec_domain_match(vc, a, d)), "KF-C54-3", K3)
+
+
+def strip_dots(vc, b):
+    if vc.mode == "native" or not is_sym(b):
+        return b.strip(".")
+    from pyvc import lib
+    z3 = _z3()
+    return SStr(lib.uf("strip_'.'", z3.StringSort(), z3.StringSort())(b.t))
